@@ -58,6 +58,16 @@ class C17(Check):
                 ops = pre + [("aligned", name, Opts(large=large, method=r.choice([0, 0, 8]), pw=pw), al), ("write", content), ("finish",)]
                 progs.append(ops)
                 metas.append(dict(k="aligned", align=al, name=name.hex(), content=content.hex(), idx=len(pre) // 2, pw=(pw or b"").hex(), haspw=pw is not None))
+        # name length + padding beyond 65535 in sum (each fits its own 16-bit field): the reader adds the two lengths
+        for nl in ((60000,) if self.tier == "quick" else (40000, 60000, 65000, 65535)):
+            for rep in range(2 if self.tier == "quick" else 8):
+                pre = [("file", b"p", Opts()), ("write", b"x" * r.randrange(0, 30000))]
+                name = b"L" * nl
+                content = b"long name aligned %d" % nl
+                ops = pre + [("aligned", name, Opts(), 32768), ("write", content), ("finish",)]
+                progs.append(ops)
+                # (implementation only: the list-based model spends half a minute on a 60,000-byte name)
+                metas.append(dict(k="aligned", align=32768, name=name.hex(), content=content.hex(), idx=1, pw="", haspw=False, impl_only=True))
         # extra-data programs
         def rec(kind, n):
             return struct.pack("<HH", kind, n) + bytes(r.randrange(256) for _ in range(n))
@@ -98,7 +108,7 @@ class C17(Check):
             if m["k"] == "aligned":
                 _, data = wprog.final_bytes(o)
                 if data:
-                    cases.append(("entry %s %d %d x%s 4096" % (hexs(data), m["idx"], 1 if m["haspw"] else 0, m["pw"]), dict(k="reread", align=m["align"], content=m["content"])))
+                    cases.append(("entry %s %d %d x%s 4096" % (hexs(data), m["idx"], 1 if m["haspw"] else 0, m["pw"]), dict(k="reread", align=m["align"], content=m["content"], impl_only=bool(m.get("impl_only")))))
         return cases
 
     def oracle(self, line, meta, out):
